@@ -473,6 +473,22 @@ def fixed_cases(thorough: bool = False):
     """every template x mode x single/multi (+ patch), benign and with one hostile title; the DRM grid"""
     W = env().W
     out = []
+    # events grid: templates that write EventStreams x mode x out-of-band / in-band x a hostile value
+    for name, mft in W.manifests().items():
+        if "eventTypes" not in mft["features"]:
+            continue
+        for mode in mft["modes"]:
+            for kind, stream in (("single", "bbb"), ("multi", "c05mps")):
+                if kind == "multi" and mode == "odvod":
+                    continue
+                for inband in ("0", "1"):
+                    q = [["events", "ping,scte35"], ["ping__inband", inband], ["scte35__inband", inband], ["ping__count", "3"],
+                         ["scte35__count", "2"], ["ping__value", "a<b>&\"'c"], ["scte35__value", "]]></EventStream>"]]
+                    if mode == "live":
+                        q.append(["depth", "20"])
+                    out.append({"kind": kind, "manifest": name, "mode": mode, "stream": stream, "query": q,
+                                "rawquery": False, "host": "localhost", "now": "2024-05-06T07:08:09Z", "stored": {},
+                                "hostile": ["q:5", "q:6"]})
     for name, mft in W.manifests().items():
         for mode in mft["modes"]:
             for kind in ("single", "multi"):
@@ -621,10 +637,15 @@ def fixed_cases(thorough: bool = False):
                                  [["start", W.segchecks.iso(base - _dt.timedelta(seconds=40 * loops))], ["depth", "20"], ["timeline", "1"]],
                                  now=W.segchecks.iso(base + _dt.timedelta(microseconds=us))))
     # shape of the stored media: every template x mode on the synthetic streams
+    # (incl. tracks much shorter / much longer than the timing reference, with and without SegmentTimeline)
     for stream in W.SYNTHETIC:
         for name, mft in W.manifests().items():
             for mode in mft["modes"]:
-                out.append(plain("single", stream, name, mode, [["depth", "20"]] if mode == "live" else []))
+                if W.excluded(stream, mode):
+                    continue
+                for tl in (("0", "1") if "segmentTimeline" in mft["features"] and stream in ("synshort", "synlong", "synlong2", "synodd") else (None,)):
+                    q = ([["depth", "20"]] if mode == "live" else []) + ([["timeline", tl]] if tl else [])
+                    out.append(plain("single", stream, name, mode, q + [["acodec", "any"]]))
     # exact string lengths for a stored and a requested string
     for i, n in enumerate(W.LENGTHS + ([1048576] if thorough else [])):
         text = ("<&>\"'x\u00e9" * (n // 7 + 1))[:n]
@@ -694,7 +715,18 @@ def ch_manifest_lex(ctx, bodies_out: list | None = None) -> Channel:
     n = ctx.scale(1000, 13000)
     cases += [W.gen_case(rng, hostile=rng.random() < .8) for _ in range(n)]
     lex_lines, lex_meta = [], []
+    import time as _time
+    t_start = _time.perf_counter()
     for case in cases:
+        if ch.oracle_failures and _time.perf_counter() - t_start > ctx.scale(150, 1200):
+            # failures are on record and the responses have become slow: stop, the verdict is settled
+            ch.count("not-run-time-budget", len(cases) - ch.evaluations)
+            break
+        if len(ch.oracle_failures) >= 25:
+            # the verdict is settled; a regression that makes every later response fail (or grow) must
+            # not turn the run into hours
+            ch.count("not-run-after-25-failures", len(cases) - ch.evaluations)
+            break
         ch.evaluations += 1
         try:
             res = evaluate_case(case, keep_body=True)
@@ -767,7 +799,7 @@ def ch_manifest_lex(ctx, bodies_out: list | None = None) -> Channel:
         ch.sample({"url": res["url"][:160], "hostile": case["hostile"], "typed_attributes": len(typed)}, limit=4)
     # history: the first requests of the run once more, after everything else the process has served
     for case in cases[:ctx.scale(60, 300)]:
-        if case["hostile"]:
+        if case["hostile"] or len(ch.oracle_failures) >= 25:
             continue
         try:
             res = evaluate_case(case)
@@ -904,7 +936,7 @@ def sentinel_cases(ctx):
     return out
 
 
-def ch_site_table(ctx) -> Channel:
+def ch_site_table(ctx, reduced: bool = False) -> Channel:
     import c05_sites as S
     import c05_tok as T
     e = env()
@@ -970,7 +1002,10 @@ def ch_site_table(ctx) -> Channel:
     PR.render_template = capturing_render
     try:
         with S.Marked(e.app, by_file):
-            for case in sentinel_cases(ctx):
+            for case in sentinel_cases(ctx)[::4 if reduced else 1]:
+                if ch.evaluations > ctx.scale(60000, 400000):
+                    ch.count("stopped: site renderings per document exploded")
+                    break
                 captured.clear()
                 try:
                     st, body, url = e.fetch(case)
@@ -1015,9 +1050,11 @@ def _site_id(row):
 def channels(ctx):
     yield ch_escape(ctx)
     bodies: list = []
-    yield ch_manifest_lex(ctx, bodies)
+    lex = ch_manifest_lex(ctx, bodies)
+    yield lex
     yield ch_xmltok(ctx, bodies)
-    yield ch_site_table(ctx)
+    # with oracle failures on record the table cross-check runs on a quarter of its requests
+    yield ch_site_table(ctx, reduced=bool(lex.oracle_failures))
 
 
 def inadequate_sites():
@@ -1113,7 +1150,7 @@ def matches_finding(finding, failure):
         return (case.get("stream") in env().W.LAYOUTS_OUTSIDE and
                 all(f["rule"] == "R5-unique-id" and f["what"].startswith("duplicate AdaptationSet@id") for f in fails))
     if cls == "track-outlasts-reference":
-        return (case.get("stream") == "synlong" and
+        return (case.get("stream") in env().W.OUTLASTING and case.get("mode") == "live" and
                 all(f["rule"] == "R4-uint" and f.get("attribute") == "d" and f.get("value", "").startswith("-") for f in fails))
     if cls == "fragments-numbered-from-zero":
         return (case.get("stream") == "synzero" and
